@@ -377,10 +377,11 @@ class PoolRun:
             els = ["e%d_%d" % (r, j) for j in range(n)]
             exp = [repr(((x,), {})) for x in els]
         elif kind == "starmap":
-            els = [("e%d_%d" % (r, j), j) for j in range(n)]
+            # anything Python can unpack with * is a legal element: tuples, lists, old-style __getitem__ sequences, strings
+            els = [(chr(97 + r % 26), chr(97 + j % 26)) if (r + j) % 4 == 3 else ("e%d_%d" % (r, j), j) for j in range(n)]
             exp = [repr((x, {})) for x in els]
-            # anything Python can unpack with * is a legal element: tuples, lists, old-style __getitem__ sequences
-            els = [x if (r + j) % 3 == 0 else list(x) if (r + j) % 3 == 1 else _GetItemSeq(x) for j, x in enumerate(els)]
+            els = [x if (r + j) % 4 == 0 else list(x) if (r + j) % 4 == 1 else _GetItemSeq(x) if (r + j) % 4 == 2 else "".join(x)
+                   for j, x in enumerate(els)]
         else:
             els = [{"x": "e%d_%d" % (r, j), "y": j} for j in range(n)]
             exp = [repr(((), x)) for x in els]
